@@ -255,6 +255,9 @@ impl Property for C08 {
     fn shard_size(&self) -> u64 {
         25
     }
+    fn shrink_iters(&self) -> u32 {
+        200
+    }
     fn classes(&self) -> Vec<ClassSpec> {
         self.classes.iter().map(|c| c.0.clone()).collect()
     }
